@@ -53,6 +53,12 @@ CHECKS = {
  "C14": dict(cat="exploration", tech="reference-model monitor: code-point laws against []rune/unicode/utf8 and regex builtins against Go regexp driven directly, composition laws between the builtins, instruction-budget termination check",
    text="Subjects over a mixed-width alphabet exhaustive to length 4 (4681) plus random longer ones; positions: length/explode/.[i]/.[i:j]/index/rindex/indices against the same operation on []rune; regex: 225+ grammar-generated regexes x 6-10 flag sets: every match/capture (offset,length) must slice the subject to its string, test iff a match exists, capture/scan/splits/split/sub/gsub must be the documented compositions of (global) matches, a named group around the whole regex substituted back must rebuild the subject, and each builtin must terminate within 50000+5000*n instructions, including regexes matching the empty string. Thorough runs the full subjects x regexes x flags product (8.8M).",
    ref="4/C14"),
+ "C02": dict(cat="exploration", tech="metamorphic monitor (operator vs its defining reduction, both executed by the real library) + reference-primitive differential + alignment/non-interference/invalid-path invariant monitors + reference-interpreter differential",
+   text="228k (3M) cases per run: every ordered pair and sampled triples of 36 path atoms (ancestor/descendant/equal/slice-overlap in every order) and generated path-safe expressions, combined with 21 update bodies (copy, duplicate, embed, slice, replace, compute, drop, multiply, fail) and inputs with shared and nested structure. `|=`, `=`, `op=`, `//=`, `del` must equal their defining reductions over path/getpath/setpath/delpaths; path(p) must align with the outputs of p through the harness' reference getpath; getpath/setpath/delpaths must equal always-copying reference primitives on all paths of a value plus hostile paths; unrelated paths must keep their values after an update; navigation from constructed values must raise an invalid-path error; the jq-defined path functions are compared with the reference interpreter evaluating builtin.jq's text.",
+   ref="4/C02", note=TRUST + " C02 additionally trusts the reference primitives (harness/internal/model/paths.go) and, for the model sub-check, the reference interpreter."),
+ "C17": dict(cat="fault_enumeration", tech="single-fault injection at known byte offsets into documents/queries/YAML fed to the real command; offline oracle over the printed line number, excerpt and caret (terminal-column widths)",
+   text="17.5k (178k) runs of the real command, each on a well-formed multi-line document, query or YAML text with exactly one injected fault whose offending byte is known by construction and cross-checked with encoding/json: fault at every line start and sampled token boundaries, ASCII/2/3/4-byte/double-width characters, inputs from bytes to 116 KB with 0-3 preceding documents (faults before, at and after every 16 KiB window reset and inside decoder read-ahead, aligned to k*4096+-1), LF/CRLF/CR terminators, file/stdin-file/pipe transport, plain/--stream/-s/--slurpfile/--argjson/second file/import modes. The printed line must be the line of the offending byte in the whole input, the excerpt a substring of that line containing the character, the caret under it in terminal columns; for queries ParseError.Offset/Token must delimit the offending token. One known finding (D6f) by exact case and narrow signature.",
+   ref="4/C17"),
 }
 
 checks = []
